@@ -3,6 +3,7 @@
 pub mod bf;
 pub mod curves;
 pub mod hashes;
+pub mod lms;
 pub mod pf;
 pub mod schemes;
 
